@@ -1,5 +1,7 @@
 """C08 — diagnostic and housekeeping options never change what is parsed (tokenizer level)."""
+import re
 from props import tokcommon as tc
+from props import tbcommon as tb
 
 PROP = "C08"
 ENGINE = "tok"
@@ -21,7 +23,7 @@ TRUSTED = [
 ASSUMPTIONS = [
     "C08_exact_errors_partial: the whole-run statement (token streams equal modulo parse errors) is decided by the "
     "oracle on the real code and by the correspondence for the model; the theorems prove its per-transition core",
-    "tree-builder options (exact_errors, drop_doctype) and the xml5ever twins are covered by the tree-builder / C15 checks",
+    "the xml5ever twins of the tokenizer options are covered by C15",
 ]
 RULE = ("every input of the tokenizer cover + boundary inputs + seeded soup, whole and under several chunkings, is run "
         "under all combinations of exact_errors × profile (× discard_bom where the input starts with U+FEFF or not); "
@@ -62,6 +64,12 @@ def gen_cases(tier, rng):
             for exact in (0, 1):
                 for profile in ((0, 1) if exact == 0 or tier == "thorough" else (0,)):
                     cases.append((tc.with_opts(l0, exact=exact, profile=profile, bom=1), "opts"))
+    # tree-builder options: exact_errors and drop_doctype (text through the real tokenizer + tree builder, `tb txt`)
+    for d in TREE_DOCS:
+        for exact in (0, 1):
+            for dropdt in (0, 1):
+                for sc in (0, 1):
+                    cases.append((tb.case_txt([d], tb.opts(s=sc, exact=exact, dropdt=dropdt)), "tb-opts"))
     # discard_bom
     for s in ["﻿x", "﻿", "x﻿", "﻿﻿<a>", "<a>﻿", "", "x"]:
         for ch in ([s], tc.singletons(s)):
@@ -70,12 +78,48 @@ def gen_cases(tier, rng):
     return cases
 
 
+DOCTYPES = ["", "<!DOCTYPE html>", "<!doctype HTML>", "<!DOCTYPE html SYSTEM 'about:legacy-compat'>", "<!DOCTYPE foo>", "<!DOCTYPE>",
+            "<!DOCTYPE html PUBLIC '-//W3C//DTD HTML 4.01 Transitional//EN'>",
+            "<!DOCTYPE html PUBLIC '-//W3C//DTD HTML 4.01 Transitional//EN' 'http://www.w3.org/TR/html4/loose.dtd'>",
+            "<!DOCTYPE html PUBLIC '-//W3C//DTD XHTML 1.0 Frameset//EN' 'x'>", "<!DOCTYPE html PUBLIC '-//IETF//DTD HTML 2.0//EN'>",
+            "<!DOCTYPE html PUBLIC 'HTML'>", "<!DOCTYPE html SYSTEM 'http://www.ibm.com/data/dtd/v11/ibmxhtml1-transitional.dtd'>",
+            "<!DOCTYPE html PUBLIC '+//Silmaril//dtd html Pro v0r11 19970101//EN'>", " <!--c--> <!DOCTYPE html PUBLIC 'x'>"]
+BODIES = ["", "x", "<p>a<table>b", "<table><td><p>c</td>d", "<!DOCTYPE a><p>", "<svg><b>x", "<frameset>", "<p><b><i></p>x</b>y", "\0<select>a"]
+TREE_DOCS = [d + b for d in DOCTYPES for b in BODIES]
+
+
+def compare(line, impl, model):
+    if line.startswith("tb\t"):
+        return tb.compare(line, impl, model)
+    return impl == model
+
+
+def _tb_key(line):
+    f = line.split("\t")
+    o = dict(kv.split("=") for kv in f[2].split(","))
+    return (o.get("s"), f[3], f[4])
+
+
+def _tb_view(out):
+    """tree without the doctype node, quirks mode, token-sink answers (the parse error count is what exact_errors may
+    legitimately change only in wording, not in number — kept out of the view, compared separately)"""
+    r = tb.parse_out(out)
+    if r is None:
+        return None
+    d = re.sub(r"\(dt,[^()]*\)", "", r["D"])
+    return d, r["R"]
+
+
 def _key(line):
     f = tc.fields(line)
     return (f["state"], f["last"], f["pol"], f["inj"], tuple(f["chunks"]))
 
 
 def oracle(line, out):
+    if line.startswith("tb\t"):
+        if tb.parse_out(out) is None:
+            return "parser crashed or malformed output: %s" % (out or "")[:200]
+        return None
     if tc.parse_out(out) is None:
         return "implementation crashed or malformed output: %s" % (out or "")[:200]
     return None
@@ -83,9 +127,28 @@ def oracle(line, out):
 
 def oracle_all(cases, outs):
     groups = {}
+    tbg = {}
     for (line, tag), out in zip(cases, outs):
-        groups.setdefault((tag, _key(line)), []).append((line, out))
+        if tag == "tb-opts":
+            tbg.setdefault(_tb_key(line), []).append((line, out))
+        else:
+            groups.setdefault((tag, _key(line)), []).append((line, out))
     res = []
+    for key, items in tbg.items():
+        ref = None
+        for line, out in items:
+            v = _tb_view(out)
+            if v is None:
+                continue
+            o = dict(kv.split("=") for kv in line.split("\t")[2].split(","))
+            has_dt = "(dt," in tb.parse_out(out)["D"]
+            if o["dropdt"] == "1" and has_dt:
+                res.append((line, "drop_doctype left a doctype node in the tree", out))
+            if ref is None:
+                ref = (line, v)
+            elif v != ref[1]:
+                res.append((line, "tree-builder options changed the parse (tree without doctype / quirks mode / answers): "
+                                  "%s gives %s, %s gives %s" % (ref[0].split("\t")[2], ref[1][0][-200:], line.split("\t")[2], v[0][-200:]), out))
     for (tag, key), items in groups.items():
         if tag == "opts":
             ref = None
@@ -122,4 +185,6 @@ def oracle_all(cases, outs):
 
 
 def nontrivial(line, out):
+    if line.startswith("tb\t"):
+        return out is not None and "(" in out
     return out is not None and ("E:" in out or len("".join(tc.fields(line)["chunks"])) >= 8)
